@@ -62,14 +62,29 @@ def _alarm(signum, frame):
     raise _Timeout()
 
 
+def _depth():
+    f, n = sys._getframe(), 0
+    while f is not None:
+        n += 1
+        f = f.f_back
+    return n
+
+
 def with_alarm(seconds, fn):
+    """Run fn under a wall-clock alarm and with the stack head-room of a real `thailint` process:
+    Hypothesis raises the interpreter's recursion limit while a test runs, which would hide (or move) the
+    RecursionErrors a user gets; the limit is set to what a fresh CLI process has left when it starts linting
+    (default limit 1000, about 40 frames used by click and the command)."""
     old = signal.signal(signal.SIGALRM, _alarm)
+    old_limit = sys.getrecursionlimit()
+    sys.setrecursionlimit(_depth() + 960)
     signal.alarm(seconds)
     try:
         return fn()
     finally:
         signal.alarm(0)
         signal.signal(signal.SIGALRM, old)
+        sys.setrecursionlimit(old_limit)
 
 
 # ------------------------------------------------------------------------------------------ content
@@ -278,6 +293,15 @@ def sw_sig(rec):
     return f"{rec['exc_type']}@{rec['rule']}"
 
 
+def sw_failure_sig(rec, where):
+    """Root-cause signature of a swallowed rule failure. RecursionError is one class (the interpreter's
+    recursion limit hit by ast.parse or by a rule's recursive tree walk) whatever rule trips over it first;
+    every other exception type is identified by type, rule and language/extension."""
+    if rec["exc_type"] == "RecursionError":
+        return "swallowed|RecursionError"
+    return f"swallowed|{sw_sig(rec)}|{where}"
+
+
 def check(case) -> Case:
     data = offender_bytes(case)
     ext = case.get("ext", LANG_OF.get(case.get("lang", "py"), ".py"))
@@ -308,7 +332,7 @@ def check(case) -> Case:
             failures.append(Failure(f"escaped|{exc.split(':')[0]}@{exc.rsplit('@', 1)[1].strip()}", {**detail, "exception": exc}))
         for rec in sw:
             anomalous = True
-            failures.append(Failure(f"swallowed|{sw_sig(rec)}|{lang_label if case['kind'] == 'blowup' else ext or 'none'}", {**detail, "record": rec}))
+            failures.append(Failure(sw_failure_sig(rec, lang_label if case["kind"] == "blowup" else ext or "none"), {**detail, "record": rec}))
         if not exc:
             got = sib_ms(vs, p.root)
             if got != baseline():
@@ -332,8 +356,8 @@ def check(case) -> Case:
             elif "Traceback (most recent call last)" in r.stderr:
                 failures.append(Failure(f"cli-traceback|{cmd}", {**detail, "cmd": cmd, "stderr": r.stderr[-600:]}))
             for rec in r.swallowed:
-                if not any(f.sig.startswith("swallowed|" + sw_sig(rec)) for f in failures):
-                    failures.append(Failure(f"swallowed|{sw_sig(rec)}|{ext or 'none'}", {**detail, "cmd": cmd, "record": rec}))
+                if not any(f.sig.startswith("swallowed|" + sw_sig(rec)) or f.sig == sw_failure_sig(rec, "") for f in failures):
+                    failures.append(Failure(sw_failure_sig(rec, ext or "none"), {**detail, "cmd": cmd, "record": rec}))
         labels.append("slow>5s" if dt > 5 else "fast")
     # de-duplicate signatures
     seen, uniq = set(), []
